@@ -164,6 +164,7 @@ func (s *IndexedState) Load(ctx *Context) error {
 		Log(ERROR, ctx, "IndexedState.Load", "location", s.Name, "error", err, "when", "Store.Load")
 		return err
 	}
+	var expired []string
 	for _, pair := range pairs {
 		id := string(pair.K)
 		bs := pair.V
@@ -182,10 +183,20 @@ func (s *IndexedState) Load(ctx *Context) error {
 					Log(ERROR, ctx, "IndexedState.Load", "location", s.Name, "error", err, "when", "rem", "id", id)
 					return err
 				}
+				expired = append(expired, id)
 			} else {
 				Log(ERROR, ctx, "IndexedState.Load", "location", s.Name, "error", err, "when", "Store.Add", "pair", pair)
 				return err
 			}
+		}
+	}
+
+	// What was to be deleted with a fact that expired while the
+	// location wasn't loaded goes now.
+	for _, id := range expired {
+		if err := s.deleteDependencies(ctx, id); err != nil {
+			Log(ERROR, ctx, "IndexedState.Load", "location", s.Name, "error", err, "when", "deleteDependencies", "id", id)
+			return err
 		}
 	}
 
